@@ -1,3 +1,78 @@
-namespace Placeholder
-theorem placeholder_C18 : True := trivial
-end Placeholder
+import Proofs.Spawn
+/-!
+# C18  Children start with a clean signal state regardless of the parent
+
+The child-side call sequence of the spawn model, interpreted over a signal state (mask of the
+thread, disposition of SIGPIPE).  By A4 `exec` keeps the mask and ignored/default dispositions, so
+the state at the `exec` call is the state the program starts with.
+-/
+namespace Spawn
+
+structure SigState where
+  mask : List Nat          -- blocked signals
+  sigpipeDefault : Bool
+  deriving DecidableEq, Repr
+
+/-- effect of a successful child-side call on the signal state: `pthread_sigmask(SIG_SETMASK, ∅)`
+    empties the mask, `signal(SIGPIPE, SIG_DFL)` restores the default action, nothing else touches it -/
+def sigStep (st : SigState) : SCall → SigState
+  | .sigmask => { st with mask := [] }
+  | .signal => { st with sigpipeDefault := true }
+  | _ => st
+
+/-- **C18.**  For every configuration, every descriptor layout and every initial signal state of
+    the forked child (= the spawning thread's mask and the parent's SIGPIPE disposition), once all
+    the steps before `exec` have succeeded the mask is empty and SIGPIPE has its default action. -/
+theorem c18_clean (c : Cfg) (p : Pipes) (sr : Nat) (st : SigState) :
+    (childSteps c p sr).foldl sigStep st = { mask := [], sigpipeDefault := true } := by
+  have hq : ∀ (l : List SCall) (st : SigState), (∀ x ∈ l, x ≠ .sigmask ∧ x ≠ .signal) → l.foldl sigStep st = st := by
+    intro l
+    induction l with
+    | nil => intro st _; rfl
+    | cons x xs ih =>
+      intro st h
+      have hx := h x (by simp)
+      have : sigStep st x = st := by cases x <;> simp_all [sigStep]
+      simp only [List.foldl_cons, this]
+      exact ih st (fun y hy => h y (by simp [hy]))
+  have hdup : ∀ i e later, ∀ x ∈ dupStep i e later, x ≠ .sigmask ∧ x ≠ .signal := by
+    intro i e later x hx
+    unfold dupStep at hx
+    cases e <;> simp at hx <;> (repeat' split at hx) <;> (try simp_all)
+    rcases hx with ⟨_, rfl⟩ | ⟨_, rfl⟩ <;> simp
+  unfold childSteps
+  simp only [List.foldl_append]
+  rw [hq [.close sr] st (by simp)]
+  rw [hq (if c.cwd then [.chdir] else []) st (by split <;> simp)]
+  rw [hq _ st (hdup 0 _ _), hq _ st (hdup 1 _ _), hq _ st (hdup 2 _ _)]
+  simp only [List.foldl_cons, List.foldl_nil, sigStep]
+  rw [hq _ _ (by cases c.gid <;> simp), hq _ _ (by cases c.uid <;> simp), hq _ _ (by split <;> simp)]
+
+/-- the program is started only after every one of these steps succeeded: a run that ends with
+    `exec` having started (`none`) has executed the whole sequence -/
+theorem c18_exec_only_after_reset (c : Cfg) (p : Pipes) (sr sw : Nat) (rs : List SResp)
+    (h : (childRun c p sr sw rs).2 = none) :
+    (runSteps (childSteps c p sr) rs).2.1 = none ∧ (runSteps (childSteps c p sr) rs).1 = childSteps c p sr := by
+  unfold childRun at h
+  have key : ∀ (l : List SCall) (rs : List SResp), (runSteps l rs).2.1 = none → (runSteps l rs).1 = l := by
+    intro l
+    induction l with
+    | nil => intro rs _; simp [runSteps]
+    | cons x xs ih =>
+      intro rs h
+      cases rs with
+      | nil => simp [runSteps] at h
+      | cons r rs => cases r <;> simp_all [runSteps]
+  split at h
+  · simp at h
+  · rename_i calls rs' heq
+    have h1 : (runSteps (childSteps c p sr) rs).2.1 = none := by rw [heq]
+    exact ⟨h1, key _ _ h1⟩
+
+/-! ### Non-vacuity (tests, labelled as tests) -/
+example : (childSteps cfgP0 {} 3).foldl sigStep { mask := [13, 15, 17], sigpipeDefault := false }
+    = { mask := [], sigpipeDefault := true } := c18_clean _ _ _ _
+  where cfgP0 : Cfg := { sin := .none, sout := .none, serr := .none, detached := false, cwd := true, uid := some 5, gid := some 6,
+                         pgid := true, argvEmpty := false, nul := false, ncand := 1 }
+
+end Spawn
